@@ -3,10 +3,10 @@
    harness/c16.py: the real scanner pipeline in fresh processes under different hash seeds,
    comment-block orders, typedef/struct orders and cache states must give identical bytes, and the
    sibling order of the real output is checked against the model order inside Coq. *)
-From Coq Require Import List NArith Bool Permutation Sorting.Sorted.
+From Coq Require Import List NArith ZArith Bool Permutation Sorting.Sorted.
 From GIV.Lib Require Import Regex Str.
-From GIV.Model Require Import C16.
-From GIV.Proofs Require Import C16.
+From GIV.Model Require Import C16 C16G.
+From GIV.Proofs Require Import C16 C16G.
 Import ListNotations.
 Local Open Scope N_scope.
 
@@ -78,3 +78,35 @@ Theorem C16_second_typedef_order : forall a b f0 fields p1 p2 p3,
   /\ map r_fields (tfinal (trun [TTypedef a p1; TTypedef b p2; TStruct f p3])) = [f; f].
 Proof. exact second_typedef_order. Qed.
 Print Assumptions C16_second_typedef_order.
+
+(* which method becomes the getter of a property (maintransformer.py _pair_property_accessors: get_<name> 50, is_<name> 25,
+   <name> 10, an annotated getter 99) does not depend on the order in which the methods were declared, hence not on the order of
+   the source files: it is the candidate of the highest priority among the methods of the class *)
+Theorem C16_getter_order_independent : forall cands setter l l',
+  cands_ok cands -> Permutation l l' -> elect cands setter l None = elect cands setter l' None.
+Proof. exact elect_order_independent. Qed.
+Print Assumptions C16_getter_order_independent.
+
+Theorem C16_getter_is_best : forall cands setter methods,
+  cands_ok cands -> best cands setter methods (elect cands setter methods None).
+Proof. exact elect_best. Qed.
+Print Assumptions C16_getter_is_best.
+
+(* the table the code builds meets the hypothesis: priorities are not negative and no two names share one *)
+Theorem C16_getter_candidates_ok : forall annotated readable writable is_bool name,
+  cands_ok (getter_candidates annotated readable writable is_bool name).
+Proof. exact getter_candidates_ok. Qed.
+Print Assumptions C16_getter_candidates_ok.
+
+(* reading the priority of the current getter once before the loop (instead of for every candidate) makes the result depend on
+   the order: the last candidate wins *)
+Theorem C16_getter_read_once_refuted :
+  elect_once w_cands None [s_get_ ++ w_name; s_is_ ++ w_name] None <> elect_once w_cands None [s_is_ ++ w_name; s_get_ ++ w_name] None.
+Proof. exact elect_once_order_dependent. Qed.
+Print Assumptions C16_getter_read_once_refuted.
+
+Example C16_getter_nonvacuous :
+  elect w_cands None [s_is_ ++ w_name; s_get_ ++ w_name; w_name] None = Some (s_get_ ++ w_name)
+  /\ elect w_cands None [s_get_ ++ w_name; s_is_ ++ w_name] None = Some (s_get_ ++ w_name)
+  /\ elect (getter_candidates None true false true w_name) None [w_name; s_is_ ++ w_name] None = Some (s_is_ ++ w_name).
+Proof. exact elect_nonvacuous. Qed.
